@@ -26,7 +26,8 @@ type SUR struct {
 	Quota    uint32 `json:"quota"`
 	Rel      string `json:"rel,omitempty"` // cost-1 | cost | cost+1: value relative to the unit cost
 	Unknown  bool   `json:"unknown,omitempty"`
-	Omit     bool   `json:"omit,omitempty"` // the optional ConsumedUnits / MonetaryQuota AVPs are not sent at all (= 0)
+	Omit     bool   `json:"omit,omitempty"`    // the optional ConsumedUnits / MonetaryQuota AVPs are not sent at all (= 0)
+	OtherID  int    `json:"otherId,omitempty"` // 0: END_USER_IMSI; n: Subscription-Id-Type n-1 (E.164, -, SIP URI, NAI, private) with the same digits - names no subscriber
 }
 
 type C08Case struct {
@@ -89,6 +90,9 @@ func genC08(t *rapid.T) C08Case {
 			r.Quota = rapid.Uint32Range(0, 100000).Draw(t, "quota")
 		}
 		r.Unknown = rapid.IntRange(0, 9).Draw(t, "unknown") == 0
+		if rapid.IntRange(0, 7).Draw(t, "otherId") == 0 {
+			r.OtherID = 1 + rapid.SampledFrom([]int{0, 2, 3, 4}).Draw(t, "idType")
+		}
 		r.Omit = rapid.IntRange(0, 4).Draw(t, "omit") == 0
 		c.Reqs = append(c.Reqs, r)
 	}
@@ -116,15 +120,19 @@ var ratingPeer *Peer
 
 var omitNext bool
 
+// idTypeNext: the next request carries its digits under this Subscription-Id-Type
+var idTypeNext = cdt.END_USER_IMSI
+
 func sendSUR(p *Peer, supi string, rg uint32, subType int, consumed, quota uint32, wait time.Duration) (*cdt.ServiceUsageResponse, error) {
 	sur := &cdt.ServiceUsageRequest{SessionId: "verif-sur", OriginHost: "verif-client", OriginRealm: "verif", DestinationRealm: "go-diameter", DestinationHost: "server",
 		UserName: datatype.OctetString("CHF"), ActualTime: datatype.Time(time.Now()),
-		SubscriptionId: &cdt.SubscriptionId{SubscriptionIdType: cdt.END_USER_IMSI, SubscriptionIdData: datatype.UTF8String(supi[5:])},
+		SubscriptionId: &cdt.SubscriptionId{SubscriptionIdType: idTypeNext, SubscriptionIdData: datatype.UTF8String(supi[5:])},
 		ServiceRating:  &cdt.ServiceRating{ServiceIdentifier: datatype.Unsigned32(rg), RequestSubType: cdt.RequestSubType(subType), ConsumedUnits: datatype.Unsigned32(consumed), MonetaryQuota: datatype.Unsigned32(quota)}}
 	msg := diam.NewRequest(ccode.ServiceUsageMessage, ccode.Re_interface, dict.Default)
 	if err := msg.Marshal(sur); err != nil {
 		return nil, fmt.Errorf("HARNESS marshal: %w", err)
 	}
+	idTypeNext = cdt.END_USER_IMSI
 	if omitNext {
 		omitNext = false
 		stripOptionalRatingAVPs(msg)
@@ -193,8 +201,11 @@ func judgeC08(c C08Case) *h.Verdict {
 			rg = 7
 		}
 		wait := 2 * time.Second
-		if r.Unknown {
+		if r.Unknown || r.OtherID != 0 {
 			wait = 100 * time.Millisecond
+		}
+		if r.OtherID != 0 {
+			idTypeNext = cdt.SubscriptionIdType(r.OtherID - 1)
 		}
 		if r.Omit {
 			omitNext = true
@@ -209,6 +220,16 @@ func judgeC08(c C08Case) *h.Verdict {
 			ratingPeer.Close()
 			ratingPeer = nil
 			return v.Failf("connection-lost/cost:"+cls, "%s: %v", desc, err)
+		}
+		if r.OtherID != 0 {
+			// the digits of a known subscriber under another identifier type name no subscriber: whatever the server does
+			// with such a request, it must not rate it from somebody's tariff
+			v.Label("other-subscription-id-type")
+			if sua != nil && sua.ServiceRating != nil && (sua.ServiceRating.AllowedUnits != 0 || sua.ServiceRating.Price != 0 ||
+				(sua.ServiceRating.MonetaryTariff != nil && sua.ServiceRating.MonetaryTariff.RateElement != nil && sua.ServiceRating.MonetaryTariff.RateElement.UnitCost != nil && sua.ServiceRating.MonetaryTariff.RateElement.UnitCost.ValueDigits != 0)) {
+				return v.Failf("rated-without-subscriber", "%s under Subscription-Id-Type %d (not an IMSI: names no subscriber) was rated: allowed %d, price %d", desc, r.OtherID-1, sua.ServiceRating.AllowedUnits, sua.ServiceRating.Price)
+			}
+			continue
 		}
 		if r.Unknown {
 			continue
